@@ -74,13 +74,16 @@ def run(ctx):
         "goes through _postprocess; every in-place store into the copy is indexed by the row window [from_index:to_index) - or by an index "
         "array filtered to it - and by the target column(s); documented effects as formulas (swap, shift, join, random walk); container "
         "type restored from what _preprocess recorded in this call")
-    ctx.assumptions += ["the resampling distribution of LabelProbabilityInjector and behaviour on empty windows are not decided"]
+    ctx.assumptions += ["the resampling distribution of LabelProbabilityInjector is decided as formulas (weights, completion to 1), not as frequencies; behaviour on empty windows is not decided"]
     pre_post(ctx)
     for cname in WINDOWED:
         frame(ctx, cname)
     effects(ctx)
     cover(ctx)
     dirichlet(ctx)
+    distribution(ctx)
+    dirichlet_wiring(ctx)
+    column_resolution(ctx)
 
 
 def pre_post(ctx):
@@ -424,3 +427,120 @@ def dirichlet(ctx):
     dr = [e for e in tr.calls() if e.callee == ("lib", "numpy.random.dirichlet")]
     ok = len(dr) == 1 and dr[0].args and (dr[0].args[0].single_atom() or ("",))[0] == "comp"
     ctx.ob("FRM", site, "class probabilities drawn from Dirichlet(alpha values)", ok, "")
+
+
+# ---------------------------------------------------------------------------
+# resampling distribution of LabelProbabilityInjector as formulas; Dirichlet wiring; column resolution
+
+def distribution(ctx):
+    site = "LabelProbabilityInjector.__call__"
+    tr = ctx.trace("LabelProbabilityInjector", "__call__")
+    cp = atom(("call", "dict", (P("class_probabilities"),), ()))
+    total = atom(("call", "sum", (atom(("mcall", cp, "values", (), ())),), ()))
+    own = lambda e: e.func is not None and e.func.qualname == site
+    rs = [e for e in tr.raises() if own(e) and e.exc == "ValueError"]
+    over = [e for e in rs if q.guards_in(e, site) == [T.mk_cmp(">", total, const(1.0))] or q.guards_in(e, site) == [T.mk_cmp(">", total, const(1))]]
+    ctx.ob("GRD", site, "probabilities that sum to more than 1 are refused", len(over) == 1, "guards: %s" % "; ".join(q.short(g, 80) for e in rs for g in q.guards_in(e, site)[:1]), rs[0] if rs else None)
+    unk = [e for e in rs if e not in over]
+    ok = len(unk) == 1
+    if ok:
+        g = q.guards_in(unk[0], site)[-1]
+        c = q.is_cmp(g)
+        sets = [a for a in T.walk(g) if a[0] == "call" and a[1] == "set"]
+        ok = c is not None and c[1] == "!=" and len(sets) == 2 and any(T.mentions(atom(s), lambda z: z[0] == "mcall" and z[2] == "keys") for s in sets) and \
+            any((s[2][0].single_atom() or ("", ""))[:2] == ("call", "numpy.unique") or (s[2][0].single_atom() or ("",))[0] == "call" and s[2][0].single_atom()[1] == "numpy.unique" for s in sets)
+    if ok:
+        for s in sets:
+            if T.mentions(atom(s), lambda z: z[0] == "mcall" and z[2] == "keys"):
+                arg = s[2][0]
+                parts = list(arg.atoms())
+                ok = ok and len(parts) == 2 and T.same(arg, atom(parts[0]) + atom(parts[1]))
+    ctx.ob("GRD", site, "classes that do not occur in the data are refused (set of given + unspecified classes != set of classes present)", ok, "", unk[0] if unk else None)
+    # unspecified classes share what is left, uniformly
+    fill = [e for e in tr.of("localmut") if own(e) and e.how == "setitem" and e.name is not None and len(e.path) == 1 and (e.path[0][1].single_atom() or ("",))[0] == "iter"
+            and T.mentions(e.value, lambda z: z[0] == "call" and z[1] == "sum")]
+    ok = len(fill) == 1
+    if ok:
+        it = fill[0].path[0][1].single_atom()
+        undefined = it[1]
+        want = (const(1) - total) / atom(("call", "len", (undefined,), ()))
+        ua = undefined.single_atom()
+        ok = T.same(fill[0].value, want) and ua is not None and ua[0] == "comp" and bool(ua[4]) and T.mentions(undefined, lambda z: z[0] in ("notin",) or (z[0] == "not"))
+    ctx.ob("FRM", site, "every unspecified class gets (1 - sum of the given probabilities) / number of unspecified classes", ok, q.short(fill[0].value, 160) if fill else "", fill[0] if fill else None)
+    # normalisation of the per-row weights
+    st = [e for e in tr.stores("_p_distribution") if own(e)]
+    ok = len(st) == 2 and st[0].value in (atom(("list", ())), atom(("call", "list", (), ())))
+    ctx.ob("FRM", site, "the per-row weights of a call start from an empty list", ok, "", st[0] if st else None)
+    ok = len(st) == 2
+    if ok:
+        fa = st[1].value.single_atom()
+        ok = fa is not None and fa[0] == "comp" and fa[1] == "list"
+        if ok:
+            dist = fa[3][0]
+            elt = fa[2][0]
+            its = [a for a in T.walk(elt) if a[0] == "iter" and a[1] == dist]
+            ok = len(set(its)) == 1 and T.same(elt, atom(its[0]) + (const(1) - atom(("call", "sum", (dist,), ()))) / atom(("call", "len", (dist,), ()))) and \
+                (dist.single_atom() or ("", "", ""))[0] == "loopvar" and dist.single_atom()[2] == "_p_distribution"
+    ctx.ob("FRM", site, "weights are completed to sum to 1 by adding (1 - sum) / n to each", ok, q.short(st[1].value, 200) if len(st) == 2 else "", st[1] if len(st) == 2 else None)
+    ch = [e for e in tr.calls() if e.callee == ("lib", "numpy.random.choice")]
+    ctx.ob("FWD", site, "rows are drawn with exactly those weights", len(ch) == 1 and len(st) == 2 and len(ch[0].args) >= 4 and ch[0].args[3] == st[1].value, "", ch[0] if ch else None)
+    # candidate rows of a class: rows whose target equals that class
+    ext = [e for e in tr.of("localmut") if own(e) and e.how == "method:extend" and e.name is not None]
+    ok = len(ext) == 1
+    if ok:
+        v = ext[0].value.single_atom()[1][0]
+        wh = [a for a in T.walk(v) if a[0] == "call" and a[1] == "numpy.where"]
+        ok = bool(wh)
+        for w_ in wh[:1]:
+            c = q.is_cmp(w_[2][0])
+            ok = c is not None and c[1] == "==" and len([a for a in c[2].atoms() if a[0] == "iter"]) == 1 and len([a for a in c[2].atoms() if a[0] == "sub"]) == 1 and T.mentions(w_[2][0], copy_atom)
+    ctx.ob("FRM", site, "the candidate rows of a class are the rows of the copy whose target equals that class", ok, "", ext[0] if ext else None)
+
+
+def copy_atom(a):
+    return a[0] == "call" and a[1] in ("numpy.copy", "copy.deepcopy", "numpy.array")
+
+
+def dirichlet_wiring(ctx):
+    site = "LabelDirichletInjector.__call__"
+    tr = ctx.trace("LabelDirichletInjector", "__call__")
+    fin = tr.final.attrs if tr.final is not None else {}
+    al = P("alpha")
+    ctx.ob("FRM", site, "classes are the keys of alpha, in order", fin.get("_alpha_classes") == atom(("call", "list", (atom(("mcall", al, "keys", (), ())),), ())), q.short(fin.get("_alpha_classes"), 60) if fin.get("_alpha_classes") is not None else "unset")
+    av = fin.get("_alpha_values")
+    a = av.single_atom() if av is not None else None
+    ok = a is not None and a[0] == "comp" and a[3] == (al,) and (a[2][0].single_atom() or ("",))[0] == "sub" and a[2][0].single_atom()[1] == al and (a[2][0].single_atom()[2].single_atom() or ("",))[0] in ("iter", "iterkey")
+    ctx.ob("FRM", site, "weights are alpha's values in the same order", ok, q.short(av, 80) if av is not None else "unset")
+    dr = [e for e in tr.calls() if e.callee == ("lib", "numpy.random.dirichlet")]
+    ctx.ob("FWD", site, "the Dirichlet draw uses those weights", len(dr) == 1 and dr[0].args[:1] == (av,), "", dr[0] if dr else None)
+    pr = fin.get("_dirichlet_probabilities")
+    a = pr.single_atom() if pr is not None else None
+    ok = a is not None and a[0] == "comp" and a[1] == "dict"
+    if ok:
+        k, v = a[2]
+        ix = [z for z in T.atoms_of(k, "idx")]
+        it = a[3][0].single_atom()
+        ok = len(ix) == 1 and k == q.sub(fin.get("_alpha_classes"), atom(ix[0])) and dr and v == q.sub(dr[0].result, atom(ix[0])) and \
+            it is not None and it[0] == "call" and it[1] == "range" and tuple(it[2]) == (atom(("call", "len", (fin.get("_alpha_classes"),), ())),)
+    ctx.ob("FRM", site, "class i gets the i-th drawn probability", bool(ok), q.short(pr, 120) if pr is not None else "unset")
+
+
+def column_resolution(ctx):
+    tr = ctx.trace("Injector", "_preprocess")
+    rv = tr.retval
+    bad = [q.short(l, 60) for _c, l in q.ite_leaves(rv)] if rv is not None and T.mentions(rv, lambda a: a[0] == "undef") else []
+    ctx.ob("DA", "Injector._preprocess", "the resolved column indices are defined for both supported containers", rv is not None and not bad, "; ".join(bad[:2]))
+    if rv is not None:
+        cols = P("columns")
+        for conds, l in q.ite_leaves(rv):
+            a = l.single_atom()
+            if a is None or a[0] != "tuple" or len(a[1]) != 2:
+                continue
+            for c2, idx in q.ite_leaves(a[1][1]):
+                isnd = any(x == atom(("call", "isinstance", (P("data"), atom(("global", "numpy.ndarray"))), ())) for x in tuple(conds) + tuple(c2))
+                if any((x.single_atom() or ("",))[0] == "not" for x in tuple(c2)) or (idx.single_atom() or ("",))[0] == "call":
+                    ia = idx.single_atom()
+                    ok = ia is not None and ia[0] == "call" and ia[1] == "tuple" and T.mentions(idx, lambda z: z[0] == "mcall" and z[2] == "get_loc")
+                    ctx.ob("FRM", "Injector._preprocess", "DataFrame column names are resolved to positions (get_loc, one per requested column)", ok, q.short(idx, 100))
+                elif idx == cols:
+                    ctx.ob("FRM", "Injector._preprocess", "array column indices are used as given", True, "")
